@@ -16,8 +16,8 @@ MODULE = "AcqVerif.Props.C03"
 DRIVERS = ["acq_conc", "acq_chan"]
 THEOREMS = ["AcqVerif.C03.%s" % t for t in (
     "no_lost_wakeup", "notifier_wakes_all", "lock_held_only_at_wait_entry", "not_stuck_while_admissible",
-    "refusal_returns_null", "space_when_drained", "woken_writer_returns", "reader_drains_in_three_reads",
-    "lock_discipline_of_source")]
+    "refusal_returns_null", "space_when_drained", "woken_writer_returns", "reader_drains_in_three_reads")] + [
+    "AcqVerif.LockDiscipline.lock_discipline_of_source"]
 
 EAGER = ("create", "join", "exit")
 
@@ -280,12 +280,30 @@ def run(ctx):
     ctx.cov["scenarios"] = len(scen)
     ctx.cov["scheduler_step_kinds"] = kinds
     ctx.cov["exhaustive"] = False
+    # the same claim where the writer really sleeps: the source of the running pipeline on a full ring, released by the readers or by
+    # the refusal that acquire_abort / the sink's error path issue (and that nobody may withdraw before the source has been joined)
+    from . import rtx
+    ex = rtx.Explorer(ctx)
+    if ex.build():
+        keep = dict(ctx.cov)
+        # (a monitor that has stopped consuming keeps the writer waiting legitimately — "once the readers have consumed enough" —
+        # which is C07's known finding about acquire_stop, not a C03 matter)
+        rel = lambda p: p["kind"] in ("crash", "diff") or (("never-returns" in p["msg"] or "never-returns" in p["sig"]) and "stalled-monitor" not in p["sig"])
+        rtx.explore(ctx, ex, ["abort", "abortmon", "stofault", "abort"], 20 if thorough else 4, 10 if thorough else 5, rel)
+        ctx.cov.update(keep)
+        ctx.cov["pipeline_runs"] = {"runs": ex.stats["runs"], "per_class": ex.stats["per_class"], "ends": ex.stats["ends"],
+                                    "cosim_runs": ex.stats["cosim_runs"], "cosim_agree": ex.stats["cosim_ok"], "decisions_compared": ex.stats["decisions"]}
+        ctx.cov["rule"] += ("; pipeline level: classes abort/abortmon/stofault of checks/rtx.py (source asleep on a full ring when abort, a "
+                            "storage failure or stop arrives) with the HANG/DEADLOCK/STEP-LIMIT oracle and co-simulation against M1")
 
 
 def replay(ctx, path):
     import json
     rep = json.load(open(path))
     r = rep.get("replay", {})
+    if "harness_input" in r:
+        from . import rtx
+        return rtx.replay(ctx, path)
     if "scenario" not in r:
         print("replay file names no concrete input (%s)" % rep.get("kind"))
         return 1
